@@ -235,10 +235,17 @@ def rule_epsilon(ctx):
         key = fn_key(fn)
         res.instance(key)
         subs, adds = [], []
+        whole_map = {}      # id(site) -> the site walks every class of the model's map (values_mut of class_info), outside of any loop over the batch's labels
         for y, anc in with_parents(fn["body"]):
             if y.get("k") == "AssignOp" and y["op"] in ("+", "-") and peel_refs(y["l"]).get("k") == "Field" and peel_refs(y["l"])["name"] == "sigma":
                 cond = [a for a in anc if a.get("k") in ("If",) or (a.get("k") == "Match" and a.get("src", "Normal") == "Normal")]
                 (adds if y["op"] == "+" else subs).append((y, cond))
+
+                def walks_all(e):
+                    return any(z.get("k") == "MethodCall" and z["name"] in ("values_mut", "iter_mut") and any(w.get("k") == "Field" and w["name"] == "class_info" for w in walk(z["recv"])) for z in walk(e))
+                loops = [a for a in anc if a.get("k") == "Match" and a.get("src") == "ForLoopDesugar" and a["arms"] and a["arms"][0]["pat"].get("k") == "Bind"]
+                each = [a for a in anc if a.get("k") == "MethodCall" and a["name"] == "for_each" and walks_all(a["recv"])]
+                whole_map[id(y)] = (bool(each) and not loops) or (len(loops) == 1 and walks_all(loops[0]["scrut"]))
         if not subs and not adds:
             res.undecided("%s : epsilon-shape" % key, "no `sigma += / -= epsilon` found (fail closed)", fn_loc(fn))
             continue
@@ -251,7 +258,10 @@ def rule_epsilon(ctx):
             res.violate("%s : epsilon-added-conditionally" % key, "the boost is added back only under a condition: on the other path the stored variances stay unboosted (or boosted twice)", fn_loc(fn, adds[0][0]["ln"]))
         elif len(adds) > 1:
             res.violate("%s : epsilon-added-twice" % key, "the boost is added to the variances more than once", fn_loc(fn, adds[1][0]["ln"]))
-        elif any(not cnd for _, cnd in subs):
+        elif any(not whole_map.get(id(y)) for y, _ in subs) and all(whole_map.get(id(y)) for y, _ in adds):
+            bad = next(y for y, _ in subs if not whole_map.get(id(y)))
+            res.violate("%s : epsilon-subtracted-from-fresh-model" % key, "the boost is added back to every class of the model but subtracted per class that is being updated: classes absent from the batch keep gaining it, and a class seen for the first time loses a boost it never had", fn_loc(fn, bad["ln"]))
+        elif any(not cnd for y, cnd in subs if not whole_map.get(id(y))):
             res.violate("%s : epsilon-subtracted-from-fresh-model" % key, "the boost is subtracted unconditionally, also from the variances of a model that never had it added", fn_loc(fn, subs[0][0]["ln"]))
         else:
             res.ok()
@@ -519,9 +529,46 @@ def rule_ftrl(ctx):
     return res.finish(6)
 
 
+def rule_fitcounts(ctx):
+    """fit_with treats the model's cluster_count as the true cumulative number of observations per cluster (it is the
+    denominator of the running mean).  What k-means `fit` stores there is therefore what it counted - not a clamped or
+    otherwise adjusted copy."""
+    res = RuleResult("R-C15-fitcounts", "the cluster counts stored by KMeans::fit are the counted memberships, unadjusted (they are the cumulative counts fit_with continues from)")
+    F = ctx.facts()
+    fns = [f for f in fns_of(F, "linfa_clustering", "fit") if (f["d"].get("self_adt") or "").endswith("KMeansValidParams")]
+    if not fns:
+        res.missing_anchor("<KMeansValidParams as Fit>::fit")
+    for fn in fns:
+        c = fn["crate"]
+        r = Render(c)
+        key = fn_key(fn)
+        lits = [y for y in walk(fn["body"]) if y.get("k") == "Struct" and any(f_["name"] == "cluster_count" for f_ in y.get("fields") or [])]
+        res.instance("%s : stored counts" % key)
+        if not lits:
+            res.undecided("%s : model-literal" % key, "no KMeans literal with cluster_count (fail closed)", fn_loc(fn))
+            continue
+        v = peel_refs(next(f_["e"] for f_ in lits[0]["fields"] if f_["name"] == "cluster_count"))
+        if v.get("k") != "Path" or "local" not in v:
+            chg = next((y["name"] for y in walk(v) if y.get("k") == "MethodCall" and y["name"] in ("max", "min", "clamp", "mapv", "map", "mapv_into")), None)
+            if chg:
+                res.violate("%s : counts-adjusted:%s" % (key, chg), "the stored counts are passed through `.%s(..)`" % chg, fn_loc(fn, lits[0].get("ln")))
+            else:
+                res.undecided("%s : counts-expression" % key, "`%s` (fail closed)" % r.e(v)[:40], fn_loc(fn, lits[0].get("ln")))
+            continue
+        loc = v["local"]
+        adj = [y for y in walk(fn["body"]) if y.get("k") == "MethodCall" and peel_refs(y["recv"]).get("local") == loc and y["name"] in ("mapv_inplace", "map_inplace", "par_mapv_inplace", "fill", "assign", "zip_mut_with", "iter_mut", "for_each")]
+        adj += [y for y in walk(fn["body"]) if y.get("k") == "Assign" and peel_refs(y["l"]).get("local") == loc]
+        if adj:
+            res.violate("%s : counts-adjusted:%s" % (key, adj[0].get("name") or "assignment"), "after the memberships were counted the counts are rewritten (`%s`): fit_with continues a running mean from counts that are not the number of observations" % r.e(adj[0])[:60], fn_loc(fn, adj[0].get("ln")))
+        else:
+            res.ok()
+    return res.finish(1)
+
+
 def rules(tier):
     from . import carry, precision
-    return [rule_batch, rule_carry_state, rule_epsilon, rule_counts, rule_kmeans, rule_ftrl,
+    return [rule_fitcounts, carry.make_fieldcopy_rule("R-C15-fieldcopy", {"linfa_bayes", "linfa_ftrl", "linfa_clustering"}, 0),
+            rule_batch, rule_carry_state, rule_epsilon, rule_counts, rule_kmeans, rule_ftrl,
             carry.make_clone_rule("R-C15-clone", {"linfa_bayes", "linfa_ftrl"}, 6), carry.make_setter_rule("R-C15-override", {"linfa_bayes", "linfa_ftrl"}, 4),
             precision.make_rule("R-C15-precision", lambda f: f["d"]["krate"] in ("linfa_bayes", "linfa_ftrl"), 30, "linfa-bayes and linfa-ftrl"),
             carry.make_accessor_rule("R-C15-accessor", {"linfa_bayes", "linfa_ftrl"}, 4), carry.make_ctor_rule("R-C15-ctor", {"linfa_bayes", "linfa_ftrl"}, 2)]
